@@ -150,6 +150,12 @@ func main() {
 	censusSites(pkgs, reachAll, appliesOf)
 	facts.Sites = sites
 	censusLoops(reachAll)
+	// F14: hash of the (comment-stripped) text of every module function: hand-written models are pinned to the text they were written from
+	for _, ff := range facts.Funcs {
+		if ff.fn != nil && ff.fn.Syntax() != nil {
+			ff.TextHash = sha(declText(ff.fn))
+		}
+	}
 	debugApplies()
 	translateBodies(pkgs, byPath)
 
